@@ -107,10 +107,21 @@ def extra_checks(tier, seed):
 # ----------------------------------------------------------------------------- bounded stand-in: history independence
 # The proof units look at one response object at a time, from a state in which nothing was evaluated before; a response
 # that keeps state outside itself (a cache on a class) fails their frame clause without an input to show.  This native
-# enumeration then looks for an actual witness: every observation of every class x every bus outcome is made in four
+# enumeration then looks for an actual witness: every observation of every class x every bus outcome is made in five
 # orders (each class alone in a forked process, outcomes ascending / descending; all classes in one process, in registry
 # order / reversed) and must come out the same.
-def _observe(cls, raw):
+def _scribble(v):
+    """what a caller may do with a result that is its own: modify it in place"""
+    if isinstance(v, list):
+        v.append("scribble")
+        v.reverse()
+    elif isinstance(v, dict):
+        v["scribble"] = True
+    elif isinstance(v, set):
+        v.add("scribble")
+
+
+def _observe(cls, raw, scribble=False):
     out = []
     try:
         r = cls(raw)
@@ -124,6 +135,8 @@ def _observe(cls, raw):
         try:
             v = getattr(r, attr)
             out.append((attr, repr(v) if not isinstance(v, F.Frame) else ("frame", len(v), v.as_integer, v.error)))
+            if scribble:
+                _scribble(v)
         except Exception as e:      # noqa: BLE001
             out.append((attr, "raised " + type(e).__name__))
     try:
@@ -156,6 +169,14 @@ def _alone(job):
     idx, reverse = job
     cls = response_classes()[idx]
     outs = list(_outcomes())
+    if reverse == "scribble":
+        # a first response object whose mutable results (lists of names ...) the caller modifies in place, then a second
+        # object for the same outcome: the second one's observations are what is compared
+        res = {}
+        for o in outs:
+            _observe(cls, _mk_raw(o), scribble=True)
+            res[o] = _observe(cls, _mk_raw(o))
+        return idx, reverse, res
     if reverse:
         outs.reverse()
     return idx, reverse, {o: _observe(cls, _mk_raw(o)) for o in outs}
@@ -178,19 +199,24 @@ def history_check():
     classes = response_classes()
     ctx = mp.get_context("fork")
     with ctx.Pool(16, maxtasksperchild=1) as pool:
-        alone = pool.map(_alone, [(i, rev) for i in range(len(classes)) for rev in (False, True)], chunksize=1)
+        alone = pool.map(_alone, [(i, rev) for i in range(len(classes)) for rev in (False, True, "scribble")], chunksize=1)
         together = pool.map(_together, [False, True], chunksize=1)
     ref = {}
     diffs = []
     n = 0
+    def label(rev):
+        if rev == "scribble":
+            return "alone, after a caller modified the results of an earlier response of the same class and outcome in place"
+        return "alone, outcomes %s" % ("descending" if rev else "ascending")
+    alone.sort(key=lambda t: (t[0], {False: 0, True: 1, "scribble": 2}[t[1]]))
     for idx, rev, obs in alone:
         for o, v in obs.items():
             n += 1
             k = (idx, o)
             if k not in ref:
-                ref[k] = (v, "alone, outcomes %s" % ("descending" if rev else "ascending"))
+                ref[k] = (v, label(rev))
             elif ref[k][0] != v:
-                diffs.append((k, ref[k], (v, "alone, outcomes %s" % ("descending" if rev else "ascending"))))
+                diffs.append((k, ref[k], (v, label(rev))))
     for rev, res in together:
         for k, v in res.items():
             n += 1
@@ -200,7 +226,7 @@ def history_check():
     if not diffs:
         return {"name": name, "status": "discharged", "cases": n, "kind": "bounded-native", "seconds": time.time() - t0,
                 "detail": "%d response classes x 513 bus outcomes, every observation (raw_value, value, status, error, named bits, "
-                          "str) in four evaluation orders" % len(classes)}
+                          "str) in five evaluation orders (incl. after in-place modification of earlier results by the caller)" % len(classes)}
     diffs.sort(key=repr)
     (idx, o), a, b = diffs[0]
     first = next((x for x, y in zip(a[0], b[0]) if x != y), None) if isinstance(a[0], tuple) and isinstance(b[0], tuple) else None
@@ -227,8 +253,9 @@ META = {
     "bounds": {"response classes": "all classes reachable from a live command class (34), taken from the registry",
                "bus outcomes": "None, BackwardFrame(b), BackwardFrameError(b) with b symbolic in 0..255",
                "constructor arguments": "None / backward frames / int / forward and plain frames / None,str,float,bytes,tuple,list,object",
-               "history (BOUNDED stand-in)": "every observation of every class x 513 outcomes natively in four evaluation orders "
-               "(alone ascending / descending, all classes together in registry / reversed order)"},
+               "history (BOUNDED stand-in)": "every observation of every class x 513 outcomes natively in five evaluation orders "
+               "(alone ascending / descending, all classes together in registry / reversed order, and alone after a caller "
+               "modified the mutable results of an earlier response for the same outcome in place)"},
     "assumptions": [
         "Frame operations are used through their contracts (C05)",
         "text content is not specified: str() is proved to return a str and never to raise MissingResponse/ResponseError "
